@@ -659,6 +659,23 @@ class C17(verif.Spec):
         if ctx["replay"]: return []
         rng = ctx["rng"]
         raw = [gen_regex_case(rng) for _ in range(80 if ctx["tier"] == "quick" else 600)]
+        # replays written for the decoder harness (dec format: `search <pgno-hex> <subno-hex> <cf> <re> <pattern>`),
+        # e.g. the regular expressions that crashed / leaked in ure_compile: run them here against a small cache
+        for f, lines in verif.corpus_cases(self.prop):
+            c = [Put(0x100, 0, [(3, "alpha a|b (c) [ok]")]), Put(0x801, 1, [(5, "beta 1.5 100%")]), "dump"]
+            n = 0
+            for l in lines:
+                t = l.split()
+                if len(t) == 6 and t[0] == "search":
+                    try:
+                        c.append("search 0x%x 0x%x %d %d %s regex" % (int(t[1], 16), int(t[2], 16), int(t[3]) != 0, int(t[4]) != 0, t[5]))
+                        n += 1
+                    except ValueError:
+                        pass
+                elif len(t) == 2 and t[0] == "next" and n:
+                    c.append(l)
+            if n:
+                raw.append(c + ["dump", "endsearch"])
         cases = S.resolve(raw, self.run_h)
         outs, inc = verif.run_side(ctx["hcmd"], cases, self.timeout_per_case)
         res = []
